@@ -202,6 +202,13 @@ def finish(ctx, explanation, write_evidence=True):
         'known_findings_reported': [f.as_dict() for f, _ in known_hit],
         'exhaustive': False,
     }
+    eq = getattr(ctx.repo, 'equivalence', None)
+    if eq is not None:
+        coverage['equivalence_to_reference'] = {
+            'rule': 'a function whose normal form (sa/normal.py) equals the normal form of the reference function is read in its '
+                    'reference spelling; every other function is read as written',
+            'reference_functions': eq['reference_functions'], 'textually_identical': eq['identical'],
+            'proven_equivalent': eq['proven_equivalent'], 'changed': eq['changed'], 'missing': eq['missing'], 'new': eq['new']}
     coverage.update(ctx.extra)
     ev = {
         'property_id': ctx.prop,
